@@ -80,7 +80,8 @@ def screen(img4d, ncomp=10, time_axis='t', slice_axis=None):
     else:
         slice_axis = input_axis_index(cmap, slice_axis)
     # 3D coordinate map for summary images
-    cmap_3d = drop_io_dim(cmap, 't')
+    # (drop the axis the summaries are taken over, whatever its name)
+    cmap_3d = drop_io_dim(cmap, time_axis)
     screen_res = {}
     # standard processed images
     screen_res['mean'] = Image(np.mean(data, axis=time_axis), cmap_3d)
